@@ -287,7 +287,7 @@ def parse_struct(st, enum_suffixes):
     T = {"name": st["qname"], "file": os.path.relpath(path, REPO), "line": st["line"], "base_text": None,
          "own_fields": [], "own_imports": [], "base_imported": False, "own_manual": [], "own_check": None,
          "own_exports": [], "base_exported": False, "manual_exports": [], "has_ptree_ctor": False, "has_get": False,
-         "aliases": {}, "ptree_ignored": False}
+         "aliases": {}, "ptree_ignored": False, "get_params": []}
     if st["bases"]:
         b = re.sub(r"^(public|private|protected)\s+", "", st["bases"]).strip()
         if "," in b: fail(path, st["bases"], "multiple base classes of a params struct")
@@ -371,6 +371,7 @@ def parse_struct(st, enum_suffixes):
                 a1 = re.fullmatch(r"const\s+std::string\s*&\s*(\w*)\s*(=\s*\"\")?", args[1])
                 if not a0 or not a1: fail(path, head, "params::get with unexpected signature")
                 pv, pathv = a0.group(1), a1.group(1)
+                T["get_params"] = [x for x in (pv, pathv) if x]
                 for stmt in [s.strip() for s in fbody.split(";")]:
                     if not stmt: continue
                     m = re.fullmatch(r"AMGCL_PARAMS_EXPORT_(VALUE|CHILD)\s*\(\s*%s\s*,\s*%s\s*,\s*(\w+)\s*\)" % (pv, pathv), stmt)
@@ -618,6 +619,9 @@ def build(defined, tag):
         R["checks"] = (B["checks"] if bi else []) + ([T["own_check"]] if T["own_check"] else [])
         R["exports"] = (B["exports"] if be else []) + T["own_exports"]
         R["manual_exports"] = (B["manual_exports"] if be else []) + T["manual_exports"]
+        # parameter names of this struct's own get(); shadowing of inherited members is checked in the base's table
+        R["export_params"] = list(T["get_params"])
+        R["own_export_names"] = [n for n, _ in T["own_exports"]]
         R["empty_like"] = bool(T.get("reports_all")) and not T["own_fields"] and not B
         R["ptree_ignored"] = T["ptree_ignored"]
         R["has_ptree_ctor"], R["has_get"] = T["has_ptree_ctor"], T["has_get"]
@@ -660,13 +664,17 @@ def offenders(R):
         elif (k == "child") != (v == "child"): out.append((n, "kind mismatch: %s member imported with AMGCL_PARAMS_IMPORT_%s" % (k, v.upper())))
     for n, v in R["exports"]:
         k = kind.get(n)
+        if n in R["export_params"] and n in R["own_export_names"]:
+            out.append((n, "member is shadowed by the parameter `%s` of get(): AMGCL_PARAMS_EXPORT_%s(%s, …, %s) exports the parameter "
+                           "instead of the member (export list); does not compile when instantiated" % (n, v.upper(), R["export_params"][0], n)))
         if k is None: out.append((n, "exported (AMGCL_PARAMS_EXPORT_%s) but is not a data member" % v.upper()))
         elif (k == "child") != (v == "child"): out.append((n, "kind mismatch: %s member exported with AMGCL_PARAMS_EXPORT_%s (export list)" % (k, v.upper())))
     for f in R["fields"]:
         n, k = f["name"], f["kind"]
         inh = "" if f["origin"] == R["name"] else " (inherited from %s)" % f["origin"]
         if k in ("value", "enum"):
-            if n not in iv and n not in R["manual"]: out.append((n, "value member%s missing from the import list (AMGCL_PARAMS_IMPORT_VALUE): cannot be set" % inh))
+            if n not in iv and not (n in EXPORT_EXEMPT.get(R["name"], []) and n in R["manual"]):
+                out.append((n, "value member%s missing from the import list (AMGCL_PARAMS_IMPORT_VALUE): cannot be set" % inh))
             if n not in ev and n not in EXPORT_EXEMPT.get(R["name"], []) and not (kind.get(n) and n in ec):
                 out.append((n, "value member%s missing from the export list (AMGCL_PARAMS_EXPORT_VALUE): not written back" % inh))
         elif k == "child":
@@ -723,11 +731,13 @@ def emit(tables, enums):
 
     def table(R):
         return ("  { name := %s, file := %s, line := %d, base := %s,\n    fields := %s,\n    imports := %s,\n    manualKeys := %s,\n"
-                "    checks := %s,\n    exports := %s,\n    derivedOwn := %s, emptyLike := %s }") % (
+                "    checks := %s,\n    exports := %s,\n    exportParams := %s,\n    derivedOwn := %s, emptyLike := %s }") % (
             lean_str(R["name"]), lean_str(R["file"]), R["line"], ("some " + lean_str(R["base"])) if R["base"] else "none",
             lean_list([fld(f) for f in R["fields"]]), lean_list([via(x) for x in R["imports"]]),
             lean_list([lean_str(s) for s in R["manual"]]), lean_list([chk(c) for c in R["checks"]]),
-            lean_list([via(x) for x in R["exports"]]), lean_list([lean_str(s) for s in R["derived_own"]]),
+            lean_list([via(x) for x in R["exports"]]),
+            lean_list([lean_str(s) for s in R["export_params"]]),
+            lean_list([lean_str(s) for s in R["derived_own"]]),
             "true" if R["empty_like"] else "false")
 
     inc = [R for R in tables if R["name"] not in EXCLUDED]
@@ -796,7 +806,7 @@ def main():
         json.dumps([(s["cases"], s["must"]) for s in E["switches"]])
     base_keys = {E["name"]: key(E) for E in enums}
     enums += [E for E in enums_all if base_keys.get(E["name"]) != key(E)]
-    tkey = lambda R: json.dumps({k: R[k] for k in ("fields", "imports", "manual", "checks", "exports", "derived_own")}, sort_keys=True)
+    tkey = lambda R: json.dumps({k: R[k] for k in ("fields", "imports", "manual", "checks", "exports", "export_params", "derived_own")}, sort_keys=True)
     base_t = {R["name"]: tkey(R) for R in tables}
     for R in tables_all:
         if base_t.get(R["name"]) != tkey(R):
